@@ -46,11 +46,8 @@ impl Property for Prop {
         } else {
             states[(key as usize) % states.len()].clone()
         };
-        if st.slots == 0 {
-            // a zero-slot memory cannot hold any fragment context: probe 2 is impossible by construction
-            rep.count("c16.skipped-zero-slots");
-            return;
-        }
+        // a zero-slot memory cannot hold any fragment context: only probe 1 (the complete packet) applies to it
+        let zero_slots = st.slots == 0;
         let pool = Pool::new(&mut rng);
         // one receiver in three is built with max_pdu_frag = 8 (the probes never need more than 8 fragments)
         let max_pdu_frag = if key % 3 == 1 { 8 } else { 0 };
@@ -223,6 +220,11 @@ impl Property for Prop {
                 use dvb_gse_rust::gse_decap::GseDecapMemory;
                 let _ = d.memory.provision_storage(b);
             }
+        }
+        if zero_slots {
+            rep.count("c16.recovered-zero-slots");
+            rep.nontrivial(mix(mix(h, fnv(st.name.as_bytes())), 0x2E20));
+            return;
         }
         // probe 2 (drawn before the history, see above)
         let np = pkts.len();
